@@ -72,6 +72,29 @@ def gen(rng, tier, dist):
                 ar.append(("b", n, rand_bytes(rng, n))); over += len(enc_payload(ar[-1]))
         out.append("rt %s %s %s" % (a.hex(), hx(t.encode()), show_args(ar)))
         dist["reply-8192"] = dist.get("reply-8192", 0) + 1
+    # fixed-capacity callers: ThreadLink::writeArray / write (MaxMsg-byte write buffer, ring of MaxMsg*n)
+    for _ in range(150 if tier == "quick" else 4000):
+        maxmsg = rng.choice([16, 24, 32, 64]); nm = rng.choice([1, 2, 4])
+        a = gen_addr(rng)[:rng.choice([2, 4, 5, 8])]
+        t = rng.choice(["s", "ss", "b", "is", "sb", "", "i", "hs", "si"])
+        over = len(pad4z(a)) + len(pad4z(b"," + t.encode()))
+        target = rng.choice([maxmsg, maxmsg * nm]) + rng.choice([-8, -4, 0, 0, 4, 8, 12])
+        ar = []
+        for k, x in enumerate(t):
+            last = k == len(t) - 1
+            if x == "i":
+                ar.append(("4", rng.getrandbits(32))); over += 4
+            elif x == "h":
+                ar.append(("8", rng.getrandbits(64))); over += 8
+            elif x == "s":
+                n = max(0, target - over - 4) if last else rng.choice([0, 3])
+                n = max(0, n - rng.choice([0, 1, 2, 3]))
+                ar.append(("s", rand_bytes(rng, n, nonul=True))); over += len(pad4z(ar[-1][1]))
+            else:
+                n = max(0, target - over - 4) if last else rng.choice([0, 3])
+                ar.append(("b", n, rand_bytes(rng, n))); over += len(enc_payload(ar[-1]))
+        out.append("tl %d %d %s %s %s" % (maxmsg, nm, a.hex(), hx(t.encode()), show_args(ar)))
+        dist["threadlink-write"] = dist.get("threadlink-write", 0) + 1
     nb = 60 if tier == "quick" else 1500
     for _ in range(nb):
         n = rng.choice([0, 1, 2, 3, 5, 8])
@@ -88,6 +111,17 @@ def gen(rng, tier, dist):
 def spec_check(case, impl):
     f = case.split(" ")
     got = parse_fields(impl)
+    if f[0] == "tl":
+        maxmsg, nm = int(f[1]), int(f[2])
+        addr = bytes.fromhex(f[3]); tags = "" if f[4] == "-" else bytes.fromhex(f[4]).decode("latin1")
+        enc = enc_spec(addr, tags, parse_args(f[5]))
+        want = "EMPTY" if (len(enc) > maxmsg or len(enc) > maxmsg * nm - 1) else enc.hex()
+        if impl.startswith("CRASH") or impl == "NOOUT":
+            return "buffer-discipline: ThreadLink write crashed (%s)" % impl[:300]
+        if got.get("wa") != want or got.get("w") not in (want, "na"):
+            return ("buffer-discipline: ThreadLink(%d,%d) write of a %d-byte message queued %s / %s, the property demands %s"
+                    % (maxmsg, nm, len(enc), str(got.get("wa"))[:50], str(got.get("w"))[:50], want[:50]))
+        return None
     if f[0] == "rt":
         addr = bytes.fromhex(f[1]); tags = bytes.fromhex(f[2]).decode("latin1")
         enc = enc_spec(addr, tags, parse_args(f[3]))
